@@ -180,15 +180,17 @@ class NB:
         self.op("TRANSPOSE_CONV", [shp, wt, x, bt], [o], "TransposeConvOptions", dict(Padding=0 if pad == "SAME" else 1, StrideW=s, StrideH=s), version=3)
         return o
 
-    def tconv_rect(self, x, pad, oc):
+    def tconv_rect(self, x, pad, oc, unit_stride=False):
         """TRANSPOSE_CONV with a rectangular kernel and, on one-row inputs, the 2x1 (WxH) stride"""
         d, st = self.draw, self.st
         X = self.info(x)
         n, h, w, c = X["shape"]
         dt = X["dtype"]
         kh, kw = d(st.integers(1, 4)), d(st.integers(1, 4))
-        sh = sw = d(st.sampled_from([1, 2]))
-        if h == 1 and d(st.booleans()):
+        sh = sw = d(st.sampled_from([1, 2])) if not unit_stride else 1
+        if unit_stride and h <= 10 and d(st.booleans()):
+            kh = h + d(st.integers(1, 3))  # a kernel taller than the input: the output has more than twice the input's rows although nothing is up-scaled
+        if h == 1 and d(st.booleans()) and not unit_stride:
             kh, sh, sw = 1, 1, 2
         oh, ow = (h * sh, w * sw) if pad == "SAME" else (h * sh + max(kh - sh, 0), w * sw + max(kw - sw, 0))
         wdt = "uint8" if dt == "uint8" else "int8"
@@ -736,6 +738,8 @@ def network(profile="exact", max_ops=6, dtypes=("int8", "int8", "int8", "uint8",
         dim = st.one_of(st.integers(1, 8), st.integers(1, 24), st.sampled_from([1, 2, 7, 8, 13, 16, 17]))
         if profile == "cascade" or (big and draw(st.integers(0, 2)) == 0):
             h, w = draw(st.sampled_from([32, 48, 64, 96, 128])), draw(st.sampled_from([16, 24, 32, 64]))
+            if profile == "cascade" and draw(st.integers(0, 5)) == 0:
+                h = draw(st.sampled_from([4, 6, 8, 10]))  # short, wide planes: cascades of a few rows
             c = draw(st.sampled_from([1, 3, 4, 8, 16]))
         else:
             h, w, c = draw(dim), draw(dim), draw(st.one_of(st.integers(1, 8), st.integers(1, 40), st.sampled_from([3, 8, 16, 17, 32])))
@@ -790,7 +794,9 @@ def network(profile="exact", max_ops=6, dtypes=("int8", "int8", "int8", "uint8",
                     "gather", "tile", "fc", "mul_const", "tanh", "logistic", "lrelu"]
             n_ops = draw(st.integers(2, max_ops))
         if profile == "cascade":  # chains of spatial operators on tall planes: what the scheduler cascades and stripes
-            menu = ["conv", "conv", "conv", "dw", "dw", "maxpool", "add_const", "relu", "add", "avgpool_valid", "padconv", "resize2", "padpool"]
+            menu = ["conv", "conv", "conv", "dw", "dw", "maxpool", "add_const", "relu", "add", "avgpool_valid", "padconv", "resize2", "padpool", "tconv1"]
+            if in_shape[1] <= 10:
+                menu = ["conv", "tconv1", "tconv1", "maxpool", "conv", "dw", "add_const"]  # few rows: kernels can be taller than the plane
             n_ops = draw(st.integers(2, max_ops))
         if profile == "slices":  # exact-class operators fed by SLICE/STRIDED_SLICE/SPLIT/CONCATENATION/PAD/RESHAPE: read and write offsets on every kind of consumer
             menu = ["sslice", "sslice", "split", "concat", "pad", "reshape", "conv", "conv", "dw", "maxpool", "avgpool_valid", "relu", "relu6", "add", "mul", "fc", "padconv", "padpool", "quantize", "maximum",
@@ -939,7 +945,7 @@ def network(profile="exact", max_ops=6, dtypes=("int8", "int8", "int8", "uint8",
                     kind = "reshape"
                 elif kind == "reshape":
                     kind = "conv"
-            if not r4 and kind in ("conv", "twinconv", "dw", "dw_same", "unsupported_conv", "maxpool", "avgpool_valid", "avgpool_same", "padconv", "padpool", "tconv", "resize_nearest", "resize_bilinear") or (kind == "mean" and len(X["shape"]) not in (2, 3, 4)):
+            if not r4 and kind in ("conv", "twinconv", "dw", "dw_same", "unsupported_conv", "maxpool", "avgpool_valid", "avgpool_same", "padconv", "padpool", "tconv", "tconv1", "resize_nearest", "resize_bilinear") or (kind == "mean" and len(X["shape"]) not in (2, 3, 4)):
                 kind = draw(st.sampled_from(["fc", "add_const", "reshape", "relu", "mul_const"]))
             if len(X["shape"]) == 0 and kind not in ("relu", "relu6", "quantize"):
                 kind = "relu"  # a scalar (everything reduced away): only element-wise operators apply
@@ -1013,6 +1019,11 @@ def network(profile="exact", max_ops=6, dtypes=("int8", "int8", "int8", "uint8",
                 cur = nb.mean(cur)
             elif kind in ("resize_nearest", "resize_bilinear"):
                 cur = nb.resize(cur, kind)
+            elif kind == "tconv1":  # stride-1 transpose convolution (an ordinary convolution with full padding) inside a chain of spatial operators
+                if r4 and X["dtype"] != "int16" and int(math.prod(X["shape"])) <= 60000:
+                    cur = nb.tconv_rect(cur, "VALID", draw(st.integers(1, 8)), unit_stride=True)
+                else:
+                    cur = nb.unary(cur, "RELU", same_q=True)
             elif kind == "resize2":  # x2 up-scaling inside a chain of spatial operators (fused into its consumer or cascaded with it)
                 if r4 and int(math.prod(X["shape"])) <= 60000 and X["dtype"] != "int16":
                     cur = nb.resize(cur, draw(st.sampled_from(["resize_nearest", "resize_nearest", "resize_bilinear"])), factor=2)
